@@ -14,6 +14,7 @@ pub uninterp spec fn spec_coin_count_str() -> Seq<u8>;   // b"coin_count"
 pub mod tmelcrypt {
     use super::*;
     pub use super::HashVal;
+    pub use super::Ed25519PK;
     #[verifier::external_body]
     pub fn hash_single<B: BytesLike>(val: B) -> (r: HashVal) ensures r == h1(val.bytes()) { unimplemented!() }
     #[verifier::external_body]
